@@ -524,8 +524,14 @@ Token *tokenize_string_literal(Token *tok, Type *basety) {
 }
 
 // Tokenize a given string and returns new tokens.
+static void convert_universal_chars(char *p);
+
 Token *tokenize(File *file) {
   current_file = file;
+
+  // Universal character names mean the same in text that was read
+  // from a file and in text that the preprocessor made up.
+  convert_universal_chars(file->contents);
 
   char *p = file->contents;
   Token head = {};
@@ -858,7 +864,6 @@ Token *tokenize_file(char *path) {
 
   canonicalize_newline(p);
   remove_backslash_newline(p);
-  convert_universal_chars(p);
 
   // Save the filename for assembler .file directive.
   static int file_no;
